@@ -741,6 +741,8 @@ package mqtt
 //@ ensures table-object-kept: cl.State.Inflight == old(cl.State.Inflight)
 //@ ensures C15-zero-expiry-cannot-be-raised: pk.Properties.SessionExpiryIntervalFlag && pk.Properties.SessionExpiryInterval > 0 && old(cl.Properties.Props.SessionExpiryInterval) == 0 ==> r0 != nil && cl.Properties.Props.SessionExpiryInterval == 0
 //@ ensures C15-session-expiry-capped-at-server-maximum: old(cl.Properties.Props.SessionExpiryInterval) <= s.Options.Capabilities.MaximumSessionExpiryInterval ==> cl.Properties.Props.SessionExpiryInterval <= s.Options.Capabilities.MaximumSessionExpiryInterval
+//@ ensures C15-disconnect-sets-the-session-expiry-it-carries: pk.Properties.SessionExpiryIntervalFlag && !(pk.Properties.SessionExpiryInterval > 0 && old(cl.Properties.Props.SessionExpiryInterval) == 0) ==> cl.Properties.Props.SessionExpiryInterval == (pk.Properties.SessionExpiryInterval > s.Options.Capabilities.MaximumSessionExpiryInterval ? s.Options.Capabilities.MaximumSessionExpiryInterval : pk.Properties.SessionExpiryInterval) && cl.Properties.Props.SessionExpiryIntervalFlag
+//@ ensures C15-disconnect-without-expiry-property-keeps-it: !pk.Properties.SessionExpiryIntervalFlag ==> cl.Properties.Props.SessionExpiryInterval == old(cl.Properties.Props.SessionExpiryInterval) && cl.Properties.Props.SessionExpiryIntervalFlag == old(cl.Properties.Props.SessionExpiryIntervalFlag)
 //@ ensures C16-normal-disconnect-stops-without-error: pk.ReasonCode != 4 && !(pk.Properties.SessionExpiryIntervalFlag && pk.Properties.SessionExpiryInterval > 0 && old(cl.Properties.Props.SessionExpiryInterval) == 0) ==> r0 == nil && cl.stopped
 //@ ensures C16-disconnect-with-will-is-an-abnormal-end: pk.ReasonCode == 4 && !(pk.Properties.SessionExpiryIntervalFlag && pk.Properties.SessionExpiryInterval > 0 && old(cl.Properties.Props.SessionExpiryInterval) == 0) ==> r0 != nil
 
